@@ -89,7 +89,8 @@ claim("C13",
 claim("C15",
       "NewStatusReport names the subject's exact bundle id (source, timestamp, fragment flag/offset/length), asserts exactly the reported status, carries a time only if requested; Core.SendStatusReport emits nothing for "
       "administrative records or when the report-to endpoint is local, otherwise exactly one bundle addressed to the report-to endpoint with control flags == administrative-record only.",
-      "The five call sites in receive/forward/localDelivery/bundleDeletion ('event happened and was requested') are not yet under contract; Core.SendBundle, HasEndpoint and the builder's clock/lifetime steps are assumed contracts.",
+      "All five call sites of SendStatusReport (receive x2, forward, localDelivery, bundleDeletion) carry 'the event happened and the report was requested' as call-site obligations; AgentManager.Deliver succeeds only with a registered agent. "
+      "Core.SendBundle (ghost count of emitted bundles), HasEndpoint and the builder's clock/lifetime steps are assumed contracts; safety obligations of Core.forward are assumed.",
       "DESIGN.md §6 C15")
 
 claim("C19",
@@ -126,8 +127,8 @@ claim("C05",
       "Per-step retention clauses: Core.receive deletes a new bundle only for an unsupported block that demands deletion, leaves known bundles untouched and hands every other new bundle to dispatching; "
       "Core.localDelivery releases the retention constraints only after the agent manager took the bundle and otherwise marks it contraindicated (kept, retried); PurgeConstraints never removes the local-endpoint constraint and adds nothing; "
       "the per-peer forwarding goroutine reports every failed transmission to the routing algorithm exactly once and names its sender; filterCLAs/epidemic selection clauses shared with C13.",
-      "Partial: Core.forward (goroutine fan-out, contraindication on failure, deletion after success), BundleDescriptor.Sync, checkPendingBundles, direct delivery, expiry of clock-less bundles, restarts, crash points and racing failure reports are not decided; "
-      "AgentManager.Deliver, bundleDeletion, dispatching, bundleContraindicated are assumed summaries.",
+      "Core.forward: call-site clauses (released only after a successful transmission and otherwise contraindicated, routing algorithm consulted only without a direct sender, deletion only for hop limit or lifetime) with its safety obligations assumed; "
+      "Partial: BundleDescriptor.Sync, checkPendingBundles, senderForDestination, expiry of clock-less bundles, restarts, crash points and racing failure reports are not decided.",
       "DESIGN.md §6 C05, §11.4")
 
 claim("C20",
